@@ -578,6 +578,47 @@ static int parse_kind(const char *name, Cipher *c, int *mode, int *only)
     return 1;
 }
 
+/* Long runs on one object (quantities a breadth-first search over short histories does not reach): a thousand
+ * bytes in some 700 one- and two-byte requests against one request on a fresh object, then 300 counter resets and
+ * 300 re-keys, each followed by a short request and compared with a fresh object given the same last calls. */
+static void marathon(Cipher c, int be)
+{
+    CtrObj o, r; static uint8_t in[1200], out[1200], ref[1200]; int i, bs = cipher_bs(c); size_t pos = 0; char cd[64], sig[120];
+    snprintf(cd, sizeof(cd), "c05m %d %d", (int)c, be);
+    snprintf(sig, sizeof(sig), "C05/ctr/%s/long-run", cipher_name(c));
+    if (guard_enter(sig, cd)) return;
+    arena_reset(); memset(&o, 0, sizeof(o)); memset(&r, 0, sizeof(r));
+    lcg_fill(in, sizeof(in), 55);
+    if (!ctr_init(c, be, &o) || !ctr_init(c, be, &r)) engine_error("marathon init");
+    if (c == CK_MANTIS) { ctr_set_key(c, &o, KEYS[0], 16, 7); ctr_set_key(c, &r, KEYS[0], 16, 7); }
+    else { ctr_set_key(c, &o, KEYS[0], (unsigned)bs * 2, 0); ctr_set_key(c, &r, KEYS[0], (unsigned)bs * 2, 0); }
+    ctr_encrypt(c, &r, ref, in, 1000);
+    for (i = 0; pos < 1000; ++i) { size_t n = 1 + (size_t)(i % 3 == 2); if (pos + n > 1000) n = 1000 - pos; ctr_encrypt(c, &o, out + pos, in + pos, n); pos += n; }
+    ++g_cnt.evaluations;
+    if (memcmp(out, ref, 1000) != 0) { size_t d = 0; while (out[d] == ref[d]) ++d;
+        violation(sig, cd, "%s on %s: 1000 bytes in %d one- and two-byte requests differ from one request at byte %zu", cipher_name(c), be_name(be), i, d); }
+    ctr_cleanup(c, &r);
+    for (i = 0; i < 600; ++i) {
+        uint8_t cv[16], c2[16], ks[16]; int rekey = i >= 300, j; const uint8_t *key = KEYS[rekey ? (i & 1) : 0];
+        unsigned klen = c == CK_MANTIS ? 16 : (unsigned)bs * 2;
+        memset(cv, 0, 16); cv[bs - 1] = (uint8_t)i; cv[bs - 2] = (uint8_t)(i >> 8); cv[0] = (uint8_t)(i * 7);
+        if (rekey) ctr_set_key(c, &o, key, klen, 7);
+        ctr_set_counter(c, &o, cv, (unsigned)bs);
+        ctr_encrypt(c, &o, out, in + i, (size_t)bs + 1);
+        /* in xor E(c), E(c+1) with the library's block function (tied to the specification by C01 / C02) */
+        memcpy(c2, cv, 16);
+        for (j = 0; j <= bs; ++j) {
+            if (j % bs == 0) { int q; if (!blk_crypt(c, key, klen, 7, 0, c2, ks)) engine_error("marathon model"); for (q = bs - 1; q >= 0; --q) if (++c2[q] != 0) break; }
+            ref[j] = (uint8_t)(in[i + j] ^ ks[j % bs]);
+        }
+        ++g_cnt.evaluations;
+        if (memcmp(out, ref, (size_t)bs + 1) != 0) { violation(sig, cd, "%s on %s: after %d earlier %s on the object, set_counter + encrypt(%d) differs from in xor E(c), E(c+1)",
+                                                              cipher_name(c), be_name(be), i, rekey ? "re-keys and counter resets" : "counter resets", bs + 1); break; }
+    }
+    ctr_cleanup(c, &o);
+    guard_leave();
+}
+
 static void body(void)
 {
     int mode = !strcmp(g_opts.sub, "c05") ? MODE_C05 : (!strcmp(g_opts.sub, "c06") ? MODE_C06 : MODE_C14);
@@ -586,6 +627,7 @@ static void body(void)
     if (g_opts.replay) {
         Cipher cc; int mm, only; char nm[96]; const char *colon = strrchr(g_opts.replay, ':');
         const MCKind *kp = &KIND;
+        { int mc_, mb_; if (sscanf(g_opts.replay, "c05m %d %d", &mc_, &mb_) == 2) { setup((Cipher)mc_, MODE_C05, 0); lcg_fill(KEYS[0], 48, 4242); lcg_fill(KEYS[1], 48, 4243); marathon((Cipher)mc_, mb_); return; } }
         if (!colon || (size_t)(colon - g_opts.replay) >= sizeof(nm)) engine_error("bad replay");
         memcpy(nm, g_opts.replay, (size_t)(colon - g_opts.replay)); nm[colon - g_opts.replay] = 0;
         if (!parse_kind(nm, &cc, &mm, &only)) engine_error("bad replay kind");
@@ -605,6 +647,14 @@ static void body(void)
             opname(g_keyop_first + k, on, sizeof(on));
             if (job < 4) sample_add("%s: init; %s; set_counter(..); encrypt(%d); encrypt(%d) ... on back ends {%s%s%s} in lock step",
                                     kind_name, on, LENS[1], LENS[3], be_name(g_be[0]), g_nbe > 1 ? ",v128" : "", g_nbe > 2 ? ",v256" : "");
+        }
+    }
+    if (mode == MODE_C05) {
+        int be;
+        for (c = 0; c < 3; ++c) for (be = 0; be <= cipher_max_be((Cipher)c); ++be, ++job) {
+            if (job % g_opts.nshards != g_opts.shard) continue;
+            lcg_fill(KEYS[0], 48, 4242); lcg_fill(KEYS[1], 48, 4243);
+            marathon((Cipher)c, be);
         }
     }
     note_num("kinds_cut_by_depth_cap", closed_all ? 0 : 1);
